@@ -109,10 +109,11 @@ type ServerConfig struct {
 	NodeIdLoader   bool
 	NoBaseTLS      bool
 	Lifetime       time.Duration // root lifetime (0 = default)
+	RootOpts       []nodeenrollment.Option
 	ExtraOpts      []nodeenrollment.Option
-	OptsSpare      int // spare capacity of the options slice handed to the listener (C15)
+	OptsSpare      int                    // spare capacity of the options slice handed to the listener (C15)
 	Inner          nodeenrollment.Storage // server storage back end (nil: in-memory)
-	NoAcceptLoop   bool // the caller (e.g. a SplitListener) accepts from the intercepting listener itself
+	NoAcceptLoop   bool                   // the caller (e.g. a SplitListener) accepts from the intercepting listener itself
 	Unix           string
 }
 
@@ -148,6 +149,7 @@ func NewServer(cfg ServerConfig) (*Server, error) {
 	if cfg.Lifetime != 0 {
 		ropts = append(ropts, nodeenrollment.WithCertificateLifetime(cfg.Lifetime))
 	}
+	ropts = append(ropts, cfg.RootOpts...)
 	if _, err := w.InitRoots(ropts...); err != nil {
 		return nil, err
 	}
